@@ -3,6 +3,7 @@
 package hx
 
 import (
+	"time"
 	"sync/atomic"
 	"context"
 	"encoding/binary"
@@ -240,6 +241,26 @@ func BruteForce(sp space.Space, ref Ref, query amath.Vector) []Scored {
 
 func Search(idx *index.Hnsw, q amath.Vector, k uint) (index.SearchResult, error) {
 	return idx.Search(context.Background(), q, k)
+}
+
+// SearchAbandoned runs a search whose caller goes away while it runs: its context is cancelled after `after` (0: at
+// once, from another goroutine). The index may finish the search or give it up with the context's error; either is
+// fine - what matters to the callers of this helper is what the index is like afterwards. The boolean says whether
+// the search was given up.
+func SearchAbandoned(idx *index.Hnsw, q amath.Vector, k uint, after time.Duration) (index.SearchResult, bool, error) {
+	ctx, cancel := context.WithCancel(context.Background())
+	defer cancel()
+	if after <= 0 {
+		go cancel()
+	} else {
+		t := time.AfterFunc(after, cancel)
+		defer t.Stop()
+	}
+	res, err := idx.Search(ctx, q, k)
+	if err != nil && (err == context.Canceled || err == context.DeadlineExceeded) {
+		return nil, true, nil
+	}
+	return res, false, err
 }
 
 // DumpInvariants checks the structural invariants that the properties state on
